@@ -339,6 +339,7 @@ def option_value_table(prog, chk):
     descriptor_pairing(prog, chk, "C20.i")
     environment_handover(prog, chk, "C20.j")
     argv_cursor_bounded(prog, chk, "C20.k")
+    select_covers_registered(prog, chk, "C20.l")
 
 
 def quoted_word_typestate(prog, chk, rid):
@@ -636,3 +637,58 @@ def argv_cursor_bounded(prog, chk, rid):
                             f.r(i), sorted(r for r in rel if "argv" in r[0] or "argv" in r[2]) or "nothing"), evals=len(rel) + 1)
     if not n:
         raise AnalysisBroken("no read through this->argv found in Process::Arguments")
+
+
+def select_covers_registered(prog, chk, rid):
+    """the multiplexed read waits with select(): its first argument has to exceed every descriptor put into the set, in whatever order the
+    pipes were created - a descriptor above it is never examined, the child blocks on that pipe for ever"""
+    chk.rule(rid, "FIN: for every stream mask and both orders of the two pipe descriptors, the nfds argument of select() in Process::read is "
+                  "greater than every descriptor registered with FD_SET on that path", floor=1)
+    cands = [f for f in prog.functions.values() if f.name == "Process::read" and len(f.params) == 3 and f.blocks and callsn(f, "select")]
+    if not cands:
+        raise AnalysisBroken("Process::read(void*, usize, uint&) with a select() call not found")
+    f = cands[0]
+    sel = callsn(f, "select")[0]
+    mask = f.params[2]["n"]
+    fds = sorted(set(m.group(0) for n in f.nodes if n["k"] == "MemberExpr" for m in [re.match(r"^this->fdStd\w+Read$", q.no_casts(f.r(n["i"])))] if m))
+    if len(fds) < 2:
+        raise AnalysisBroken("Process::read: the two pipe descriptors were not found")
+    # FD_SET expands to an |= on the set's bit array: the registration sites, each with the descriptor it mentions
+    regs = {}
+    for st in q.stores(f):
+        if st.op == "|=" and re.search(r"fds_bits", f.r(st.lhs)):
+            for x in [st.node] + list(f.desc(st.node)):
+                t = q.no_casts(f.r(x)) if f.nodes[x]["k"] == "MemberExpr" else ""
+                if t in fds:
+                    regs[st.node] = t
+    if not regs:
+        raise AnalysisBroken("Process::read: no FD_SET registration found")
+    bad = None
+    n_ev = 0
+    for m_ in (1, 2, 3):
+        for va, vb in ((5, 7), (7, 5), (5, 0), (0, 7)):
+            val = {mask: m_, fds[0]: va, fds[1]: vb}
+            seen, end, fv = fin.walk_vals(f, f.entry, val, stop_at=sel, limit=20000)     # (FD_ZERO is a loop over the whole set)
+            n_ev += 1
+            if end in ("limit",) or (isinstance(end, str) and end.startswith("undetermined")):
+                bad = (m_, va, vb, "the way to select() is not determined by the mask and the descriptors (%s)" % end)
+                break
+            if end != "stop":
+                continue        # nothing to wait for under this valuation (EINVAL path)
+            registered = [val[regs[e]] for e in seen for e in ([e] + list(f.desc(e))) if e in regs]
+            nfds = fin.eval_expr(f, q.call_args(f, sel)[0], fv)
+            if nfds is None:
+                bad = (m_, va, vb, "nfds is not determined by the mask and the descriptors")
+                break
+            if registered and nfds <= max(registered):
+                bad = (m_, va, vb, "select() is called with nfds = %d although descriptor %d is in the set" % (nfds, max(registered)))
+                break
+        if bad:
+            break
+    where = f.where(sel)
+    if bad:
+        chk.bad(rid, f, "select-nfds-below-registered-descriptor", where,
+                "with stream mask %d and descriptors (%s=%d, %s=%d): %s - output on that pipe is never seen, a child that fills it blocks for ever "
+                "and join() is never reached" % (bad[0], fds[0].replace("this->", ""), bad[1], fds[1].replace("this->", ""), bad[2], bad[3]), evals=n_ev)
+    else:
+        chk.ok(rid, f, "nfds exceeds every registered descriptor", where, "%d valuations (mask x descriptor order)" % n_ev, evals=n_ev)
